@@ -647,6 +647,10 @@ func (e *Enc) applyAssigns(fn *ssa.Function, c *Contract, args []Val, st *State,
 	if errs != "" {
 		e.fatalf("%s:%d: binding error in assigns: %s", c.File, c.Line, errs)
 	}
+	e.applyTargets(tg, st)
+}
+
+func (e *Enc) applyTargets(tg []target, st *State) {
 	// allocation may always grow
 	e.keySortOf("$alloc", bv64)
 	e.get(st, "$alloc", bv64)
@@ -827,6 +831,12 @@ func (e *Enc) invoke(fr *Frame, cc *ssa.CallCommon, recv Val, args []Val, st *St
 			}
 		}
 	}
+	if e.ctx.isAbsMethod(cc.Method) {
+		return e.absCall(recv, cc.Method, st, reach, true)
+	}
+	if sch := e.ctx.methodSchema(cc.Method); sch != nil {
+		return e.callBySchema(fr, sch, append([]Val{recv}, args...), st, reach, pos, rt)
+	}
 	// devirtualisation directive: the interface is assumed to hold one concrete type; that assumption is an obligation here
 	if ct, ok := e.ctx.devirtT[typeKeyFull(it)]; ok {
 		if fn := e.ctx.prog.LookupMethod(ct, cc.Method.Pkg(), cc.Method.Name()); fn != nil {
@@ -964,6 +974,7 @@ func (e *Enc) run(fn *ssa.Function) {
 	e.usedContracts = map[string]bool{}
 	e.usedNoContract = map[string]bool{}
 	e.usedInline = map[string]bool{}
+	e.absUsed = map[string]bool{}
 	e.devirtUsed = map[string]bool{}
 	e.closureBinds = map[string][]Val{}
 	fr := e.newFrame(fn, nil)
@@ -1271,7 +1282,16 @@ func (e *Enc) callBySchema(fr *Frame, sch *Schema, args []Val, st *State, reach 
 		e.assume(imp(reach, t))
 	}
 	oldSt := st.clone()
-	e.havocAll(st)
+	if sch.C.Assigns != nil {
+		asc := &Scope{e: e, st: oldSt.clone(), names: names, pkg: pkg, err: &errs, reach: reach}
+		e.applyTargets(e.targets(sch.C, asc), st)
+		if errs != "" {
+			e.fatalf("%s:%d: binding error in schema assigns: %s", sch.C.File, sch.C.Line, errs)
+			errs = ""
+		}
+	} else {
+		e.havocAll(st)
+	}
 	var res Val
 	if rt != nil {
 		res = e.havocVal(rt, "ret_"+sch.Name)
